@@ -13,7 +13,7 @@ import random
 
 import numpy as np
 
-from . import core, scriptgen
+from . import convtrace, core, scriptgen
 
 LEVEL = "model_checking"
 INPUTS = [(-1, 0), (-1, 1), (-1, 2), (2, 0), (2, 1), (2, 2)]
@@ -227,6 +227,9 @@ def run(ctx: core.Ctx):
     # i % 4 == 3: user names that look like generated ones; i % 4 == 1: defined inside a factory (closure constant)
     args = [(i, s["prog"], list(s["ret"]), (i % len(scriptgen.NAME_SCHEMES)) if i % 4 == 3 else (10 if i % 4 == 1 else 0),
              [r["py"][0] == "ok" for r in s["res"]]) for i, s in enumerate(chosen)]
+    # direction B: traces recorded by the hooks in converter.py (the repository's own programs and tests, and the
+    # derived programs) validated by TLC against Converter.tla; this check owns the selection / ordering clauses
+    convtrace.stage(ctx, [scriptgen.program_src(s["prog"], list(s["ret"])) for s in chosen[:1500 if ctx.quick else 6000]], "C01")
     results = core.pmap_safe(run_program, args, timeout=90)
     nontriv = 0
     for s, r in zip(chosen, results):
